@@ -285,6 +285,8 @@ example : HrefSafe C02.Ex2.sheet := by
 example : Accepts C02.Ex2.O (canon C02.Ex2.sheet) :=
   accepts_of_yes _ (fun _ => rfl) (fun _ _ => rfl) (fun _ => rfl) (fun _ => rfl) _
 example : TidyL (render C02.Ex2.sheet) := by unfold TidyL; decide +kernel
+/-- every rule of the example sheet is written -/
+example : prune C02.Ex2.sheet = C02.Ex2.sheet := by simp only [prune]; rfl
 example : GapBlind C02.Ex2.O := ⟨fun _ _ _ _ _ _ _ => rfl, fun _ _ _ _ => rfl, fun _ _ _ _ _ _ _ => rfl, fun _ _ => rfl⟩
 
 /-- tests (evaluation), not theorems: every rule of the example sheet is written; its serialisation has 8 rules again;
